@@ -1208,7 +1208,7 @@ func c23Profiles() []c23Cfg {
 // the list of rounds is a pure function of (seed, tier)
 func c23Rounds(r *verifkit.Run) []c23Cfg {
 	profiles := c23Profiles()
-	totalGets := r.N(12000, 200000)
+	totalGets := r.N(12000, 120000)
 	rnd := r.Rand("rounds")
 	var cfgs []c23Cfg
 	per := totalGets / (2 * len(profiles))
